@@ -7,9 +7,17 @@ use smoltcp::time::Instant;
 use smoltcp::wire::{EthernetAddress, HardwareAddress, IpCidr};
 use std::collections::VecDeque;
 
+pub mod dgram;
+pub mod dhcp_net;
+pub mod dns_net;
+pub mod enforce;
 pub mod lowpan;
+pub mod scen;
 pub mod tcp_peer;
 pub mod tcpsim;
+pub mod traffic;
+pub mod zoo;
+pub mod wrap_seeds;
 
 pub type Micros = i64;
 
